@@ -6,6 +6,7 @@ import (
 	"flag"
 	"fmt"
 	"os"
+	"runtime"
 	"strconv"
 	"time"
 
@@ -37,6 +38,17 @@ func main() {
 	if len(os.Args) < 2 {
 		fmt.Fprintln(os.Stderr, "usage: tabsim check <id> <quick|thorough> | replay <file> | worker ... | gen <id> <idx> | selftest")
 		os.Exit(2)
+	}
+	// Everything except the coordinator and the race prong executes scripts on
+	// one goroutine at a time; one P makes what the code under test keeps in
+	// per-P structures (sync.Pool) behave the same in a worker and in a replay.
+	// An explicit GOMAXPROCS in the environment wins (the determinism self-test
+	// uses 1, 4 and 16 on purpose).
+	if os.Getenv("GOMAXPROCS") == "" {
+		switch os.Args[1] {
+		case "worker", "replay", "exec-one", "loghash":
+			runtime.GOMAXPROCS(1)
+		}
 	}
 	switch os.Args[1] {
 	case "check":
